@@ -784,6 +784,25 @@ func (realComp) Gen(r *rand.Rand, tier string, n int) []*wire.Case {
 				cases = append(cases, &wire.Case{ID: fmt.Sprintf("d-char-%s-maxed-%d", c, k), Ops: []*wire.Rec{s.rec("run")}})
 			}
 		}
+		// every registered character in four teams of four (a sliding window over the registry), against enemies that fight and
+		// are weak to a different element from team to team
+		for i := range chars {
+			team := []string{chars[i], chars[(i+1)%len(chars)], chars[(i+2)%len(chars)], chars[(i+3)%len(chars)]}
+			s := realSpecGen(r, team, lcs, relics)
+			s.chars = team
+			s.lcs, s.eidols, s.levels, s.relics = nil, nil, nil, nil
+			for range team {
+				s.lcs = append(s.lcs, lcs[r.Intn(len(lcs))])
+				s.eidols = append(s.eidols, pick(r, 0, 2, 6))
+				s.levels = append(s.levels, 80)
+				s.relics = append(s.relics, "-")
+			}
+			s.quirk, s.abil, s.energy, s.cycles, s.ehp, s.elevel, s.seed = 0, 10, 50, 6, 200000, 10, i
+			s.enemies = []string{"dummy", "dummy", "dummy"}
+			s.eparams = "AOE:1:1:10:PHYSICAL"
+			s.script = realScript(r, team)
+			cases = append(cases, &wire.Case{ID: fmt.Sprintf("d-team-%d", i), Ops: []*wire.Rec{s.rec("run")}})
+		}
 		// every registered character once, alone, with its own script
 		for _, c := range chars {
 			s := realSpecGen(r, []string{c}, lcs, relics)
